@@ -12,6 +12,7 @@
 //   iadd <t> | ifetch <now> <k> <nt> | istore <now> <k> <v> <trigs|-> <timeout> <nt> | iattach <id> | idetach <id>
 //   ireset | irise <t> | iclear | istats
 //   ipage <now> <key> <timeout> <body> <op;op;…|->        (ops as above with ':' instead of blanks)
+//                                   ops in front of an item `F` run before fetch_page, the others between fetch_page and store_page
 // answers: ok | miss | hit <v> | detached <t,t,…> | cached <body> | built <answer;answer;…>, each followed by
 // " | <keys> <triggers>" (stats of the shared cache after the line)
 #include "common.h"
@@ -106,7 +107,7 @@ static std::string do_op(cppcms::cache_interface &ci,recs_t &recs,std::vector<st
 }
 
 // the page being built by the next request
-struct page_script { std::string key,body; int timeout; std::vector<std::vector<std::string> > ops; std::string result; };
+struct page_script { std::string key,body; int timeout; std::vector<std::vector<std::string> > pre,ops; std::string result; };
 static page_script g_page;
 
 struct page_app : public cppcms::application {
@@ -114,10 +115,12 @@ struct page_app : public cppcms::application {
 	virtual void main(std::string /*url*/)
 	{
 		response().content_type("application/octet-stream");
-		if(cache().fetch_page(g_page.key)) { g_page.result="cached"; return; }
 		recs_t recs;
 		std::string r;
-		for(size_t i=0;i<g_page.ops.size();i++) { if(i) r+=";"; r+=do_op(cache(),recs,g_page.ops[i]); }
+		// operations in front of the marker `F` run BEFORE fetch_page (a prologue that records triggers / stores frames)
+		for(size_t i=0;i<g_page.pre.size();i++) { if(!r.empty()) r+=";"; r+=do_op(cache(),recs,g_page.pre[i]); }
+		if(cache().fetch_page(g_page.key)) { g_page.result="cached"; return; }
+		for(size_t i=0;i<g_page.ops.size();i++) { if(!r.empty()) r+=";"; r+=do_op(cache(),recs,g_page.ops[i]); }
 		response().out().write(g_page.body.data(),g_page.body.size());
 		cache().store_page(g_page.key,g_page.timeout);
 		recs.clear();
@@ -221,7 +224,8 @@ static std::string run(std::vector<std::string> const &w)
 		g_page=page_script();
 		if(!vh::unhex(w[2],g_page.key) || !vh::unhex(w[4],g_page.body)) return "bad-op";
 		g_page.timeout=atoi(w[3].c_str());
-		if(w[5]!="-") { std::vector<std::string> ops=split(w[5],';'); for(size_t i=0;i<ops.size();i++) g_page.ops.push_back(split(ops[i],':')); }
+		if(w[5]!="-") { std::vector<std::string> ops=split(w[5],';'); bool pre=false; for(size_t i=0;i<ops.size();i++) pre=pre||ops[i]=="F";
+			for(size_t i=0;i<ops.size();i++) { if(ops[i]=="F") { pre=false; continue; } (pre?g_page.pre:g_page.ops).push_back(split(ops[i],':')); } }
 		std::string body;
 		if(!g.request(body)) return "request-failed"+tail();
 		if(g_page.result=="cached") return "cached "+vh::hex(body)+tail();
